@@ -133,6 +133,16 @@ func c11Run(p c11Plan) *common.Fail {
 		if got := fromLibLData(l); !sameRLData(got, &want) {
 			return common.Failf("layout-decode-aliases-input", "fields decoded from %x change when that buffer is overwritten:\n now      %+v\n expected %+v", orig, *got, want)
 		}
+		// ... and to the caller: an application edits what it received (turns a control unit into its reply, say);
+		// what the decoder yields for the same layout afterwards is still what the bytes say
+		common.Scribble(m)
+		var m3 cemi.Message
+		if _, err := cemi.Unpack(append([]byte{}, orig...), &m3); err != nil {
+			return common.Failf("layout-decode-shared", "after the value decoded from %x was overwritten by its owner, decoding the same layout again fails: %v", orig, err)
+		}
+		if l3 := ldataOf(m3); l3 == nil || !sameRLData(fromLibLData(l3), &want) {
+			return common.Failf("layout-decode-shared", "after the value decoded from %x was overwritten by its owner, decoding the same layout again gives %s\n expected %+v (decoded values share state)", orig, common.Show(m3), want)
+		}
 	case "bytes":
 		b, _ := hex.DecodeString(p.Hex)
 		want, rerr := common.RefDecodeCemi(b)
